@@ -117,8 +117,16 @@ def judge(path):
                 ev = json.loads(line)
             except Exception:
                 continue
+            if ev[0] == "BB":
+                cnt("builder_snapshots_around_callback")
+                if ev[3] != ev[5] or ev[4] != ev[6]:
+                    cnt("viol")
+                    out["viol"].append(("builder-changed-by-token-edit:%s" % TARGETS[ev[2]],
+                                        "editing the jwt_t inside the generate callback changed the builder's own headers/claims",
+                                        dict(seq=ev[1], target=TARGETS[ev[2]], ops=[h[3:11] for h in hist[-8:]], builder_before=[ev[3], ev[4]], builder_after=[ev[5], ev[6]])))
+                continue
             if ev[0] == "N":
-                state = {"alg": "none"} if ev[2] == 4 else {}
+                state = {"alg": "none"} if ev[2] == 4 else ({"a": 5, "b": "s", "n": {"k": [1, 2]}} if ev[2] in (2, 3) else {})
                 hist = []
                 seqkey = (ev[1], ev[2])
                 continue
